@@ -118,7 +118,7 @@ type reportedDeadline struct {
 func (c reportedDeadline) Deadline() (time.Time, bool) { return c.at, true }
 
 func oneSleep(r *R) {
-	strict := r.Cfg.StallPer1k == 0 && r.Cfg.LatePer1k == 0 && r.Cfg.TaskStallPer1k == 0
+	strict := r.Cfg.StallPer1k == 0 && r.Cfg.LatePer1k == 0 && r.Cfg.ClockTickPer1k == 0 && r.Cfg.TaskStallPer1k == 0
 	d := []time.Duration{50 * time.Millisecond, -time.Second, 0, time.Millisecond, 3 * time.Second, time.Hour}[r.Choose(6, "d")]
 	kind := r.Choose(12, "ctx") // 11: ends inside d with DeadlineExceeded, but its Deadline() reports none (a merged / wrapping context); 9: cancelled mid-sleep with a cause of its own, 10: already cancelled with a cause; 0 background, 1 deadline far, 2 deadline inside d, 3 deadline just inside, 4 deadline just beyond, 5 pre-cancelled, 6 cancelled mid-sleep, 7 deadline far AND cancelled mid-sleep, 8 deadline far AND already cancelled
 	root := NewCtx(nil, "root")
@@ -212,17 +212,33 @@ func oneSleep(r *R) {
 		elapsed := time.Duration(c.RetAt - c.InvAt)
 		closer := hasDeadline && d > 0 && rem < d
 		_, tooSoon := err.(xtime.DeadlineTooSoonError)
+		// in runs whose clock moves between two readings, "at once" is a few nanoseconds and the
+		// library sees the deadline that much closer than the harness did when it made the call
+		slack := time.Duration(0)
+		if r.Cfg.ClockTickPer1k > 0 {
+			slack = 40 * time.Nanosecond
+			if r.Cfg.StallPer1k > 0 || r.Cfg.TaskStallPer1k > 0 {
+				// a moving clock is a schedule point, and this run may stall anybody at one
+				slack = 1<<62
+			}
+		}
+		remSlack := slack // (the same goes for how far away the library finds the deadline)
 		switch {
 		case d <= 0:
 			r.Probe("sleep-d-nonpositive")
-			if err != nil || elapsed != 0 {
+			if err != nil || elapsed > slack {
 				r.Violate("C20", "sleep/nonpositive-d", "SleepContext(d=%v) returned %v after %v; must return nil at once", d, err, elapsed)
 			}
 		case closer:
 			r.Probe("sleep-deadline-too-soon")
 			if !tooSoon {
 				r.Violate("C20", "sleep/deadline-closer-not-reported", "the context's deadline is %v away, d is %v, but SleepContext returned %v after %v instead of DeadlineTooSoonError", rem, d, err, elapsed)
-			} else if elapsed != 0 {
+			} else if elapsed > slack {
+				r.Violate("C20", "sleep/deadline-too-soon-not-immediate", "DeadlineTooSoonError was returned only after %v", elapsed)
+			}
+		case tooSoon && hasDeadline && d > 0 && rem-remSlack < d:
+			// the deadline was at most a clock tick further away than d when the call was made
+			if elapsed > slack {
 				r.Violate("C20", "sleep/deadline-too-soon-not-immediate", "DeadlineTooSoonError was returned only after %v", elapsed)
 			}
 		case tooSoon:
@@ -485,7 +501,7 @@ func tickerScenario(r *R) {
 	if !safely("Reset", func() { tk.Reset(d, j) }) {
 		return
 	}
-	strict := r.Cfg.StallPer1k == 0 && r.Cfg.LatePer1k == 0 && r.Cfg.TaskStallPer1k == 0
+	strict := r.Cfg.StallPer1k == 0 && r.Cfg.LatePer1k == 0 && r.Cfg.ClockTickPer1k == 0 && r.Cfg.TaskStallPer1k == 0
 	last := resetInv
 	for k := 0; k < 3; k++ {
 		t := sim.Pre("restart-recv")
